@@ -115,7 +115,7 @@ func (l *lexer) buildJS(vm *otto.Otto) otto.Value {
 		}
 		oo := ov.Object()
 		for l.peek() != ")" {
-			kb, err := hex.DecodeString(l.next())
+			kb, err := keyBytes(l.next())
 			if err != nil {
 				panic("token syntax: key")
 			}
@@ -338,6 +338,243 @@ func implJS(vm *otto.Otto, op, tok string) string {
 	return "bad-op"
 }
 
+// ---------------------------------------------------------------- JavaScript-side generators
+
+var jsKeys = []string{"a", "b", "c", "k1", "0", "1", "length", "é", ""}
+
+// jsLeaf draws a primitive JS value token (never a float32-typed token: those exist only via G(..)).
+func jsLeaf(r *h.Rng, base []string, bd []float64) string {
+	switch r.Intn(12) {
+	case 0:
+		return "u"
+	case 1:
+		return "n"
+	case 2, 3, 4:
+		return fmt.Sprintf("i64:%d", r.Intn(7)-3)
+	case 5:
+		return "f64:" + h.F64Hex([]float64{1.5, -0.0, 0, 2, 1e21, math.NaN(), math.Inf(1)}[r.Intn(7)])
+	case 6:
+		return []string{"b:0", "b:1"}[r.Intn(2)]
+	case 7:
+		return h.BytesTok([]string{"", "a", "b", "é", "x y"}[r.Intn(5)])
+	case 8:
+		return []string{"i32:1", "u32:2", "i32:-1", "u32:0", "int:3", "i8:4", "u64:5"}[r.Intn(7)]
+	}
+	for {
+		t := randScalar(r, base, bd)
+		if !strings.HasPrefix(t, "f32:") {
+			return t
+		}
+	}
+}
+
+func goLeafTyped(r *h.Rng, t string) string {
+	switch t {
+	case "int":
+		return fmt.Sprintf("int:%d", r.Intn(9)-4)
+	case "i64":
+		return fmt.Sprintf("i64:%d", r.Intn(9)-4)
+	case "u8":
+		return fmt.Sprintf("u8:%d", r.Intn(256))
+	case "f64":
+		return "f64:" + h.F64Hex([]float64{1.5, 0, -2.25, 1e300, math.Inf(-1)}[r.Intn(5)])
+	case "f32":
+		return "f32:" + h.F64Hex(float64([]float32{1.5, 0.1, -3, 1e-40}[r.Intn(4)]))
+	case "s":
+		return h.BytesTok([]string{"", "a", "zz", "é", "a\xffb"}[r.Intn(5)])
+	case "b":
+		return []string{"b:0", "b:1"}[r.Intn(2)]
+	}
+	return "nil"
+}
+
+var elemTypes = []string{"I", "int", "i64", "u8", "f64", "f32", "s", "b", "L(I)", "L(int)", "M(I)", "M(s)", "N(int)", "N(f32)"}
+
+// goOfType draws a Go value token assignable to the type token t.
+func goOfType(r *h.Rng, t string, depth int) string {
+	switch {
+	case t == "I":
+		if depth <= 0 || r.Chance(50) {
+			switch r.Intn(6) {
+			case 0:
+				return "nil"
+			default:
+				return goLeafTyped(r, []string{"int", "i64", "f64", "s", "b", "u8", "f32"}[r.Intn(7)])
+			}
+		}
+		return goContainer(r, depth-1)
+	case strings.HasPrefix(t, "N("):
+		return "N(" + goLeafTyped(r, t[2:len(t)-1]) + ")"
+	case strings.HasPrefix(t, "L("):
+		et := t[2 : len(t)-1]
+		n := r.Intn(4)
+		if depth <= 0 {
+			n = 0
+		}
+		b := "L(" + et + "," + []string{"0", "0", "0", "1"}[r.Intn(4)]
+		if strings.HasSuffix(b, "1") {
+			n = 0
+		}
+		for i := 0; i < n; i++ {
+			b += "," + goOfType(r, et, depth-1)
+		}
+		return b + ")"
+	case strings.HasPrefix(t, "M("):
+		et := t[2 : len(t)-1]
+		n := r.Intn(4)
+		if depth <= 0 {
+			n = 0
+		}
+		b := "M(" + et + "," + []string{"0", "0", "0", "1"}[r.Intn(4)]
+		if strings.HasSuffix(b, "1") {
+			n = 0
+		}
+		used := map[string]bool{}
+		for i := 0; i < n; i++ {
+			k := jsKeys[r.Intn(len(jsKeys))]
+			if used[k] {
+				continue
+			}
+			used[k] = true
+			b += "," + keyTok(k) + "," + goOfType(r, et, depth-1)
+		}
+		return b + ")"
+	}
+	return goLeafTyped(r, t)
+}
+
+func goContainer(r *h.Rng, depth int) string {
+	switch r.Intn(8) {
+	case 0:
+		return fmt.Sprintf("S(0,41,int:%d)", 1+r.Intn(5))
+	case 1:
+		return "P(S(0,41,int:2,42," + h.BytesTok("q") + "))"
+	case 2, 3, 4:
+		return goOfType(r, "L("+elemTypes[r.Intn(len(elemTypes))]+")", depth)
+	}
+	return goOfType(r, "M("+elemTypes[r.Intn(len(elemTypes))]+")", depth)
+}
+
+// jsTree draws a JS value token: arrays (with holes), objects, bridged Go containers, leaves.
+func jsTree(r *h.Rng, depth int, base []string, bd []float64, leaf func() string) string {
+	if depth <= 0 || r.Chance(30) {
+		return leaf()
+	}
+	switch r.Intn(10) {
+	case 0:
+		return "G(" + goContainer(r, 2) + ")"
+	case 1, 2, 3:
+		n := r.Intn(4)
+		b := "O("
+		used := map[string]bool{}
+		for i := 0; i < n; i++ {
+			k := jsKeys[r.Intn(len(jsKeys))]
+			if used[k] {
+				continue
+			}
+			used[k] = true
+			b += keyTok(k) + "," + jsTree(r, depth-1, base, bd, leaf) + ","
+		}
+		return b + ")"
+	}
+	n := r.Intn(4)
+	b := "A("
+	for i := 0; i < n; i++ {
+		if r.Chance(6) {
+			b += "H,"
+		} else {
+			b += jsTree(r, depth-1, base, bd, leaf) + ","
+		}
+	}
+	return b + ")"
+}
+
+// nestedHomogeneous draws arrays nested `depth` deep whose leaves come from a two-type palette:
+// the shape that decides between []T, []interface{} and the reflect.Set panic.
+func nestedHomogeneous(r *h.Rng, depth int, palette []string) string {
+	if depth == 0 {
+		switch palette[r.Intn(len(palette))] {
+		case "i":
+			return fmt.Sprintf("i64:%d", r.Intn(3))
+		case "f":
+			return "f64:" + h.F64Hex(float64(r.Intn(3))+0.5)
+		case "s":
+			return h.BytesTok([]string{"a", "b"}[r.Intn(2)])
+		case "b":
+			return "b:1"
+		case "n":
+			return "n"
+		case "o":
+			return "O(61,i64:1,)"
+		case "g":
+			return "G(L(int,0,int:1))"
+		case "m":
+			return "G(M(int,0,61,int:1))"
+		}
+	}
+	n := 1 + r.Intn(3)
+	b := "A("
+	for i := 0; i < n; i++ {
+		b += nestedHomogeneous(r, depth-1, palette) + ","
+	}
+	return b + ")"
+}
+
+func genJS(c *h.Ctx, base []string, bd []float64) {
+	r := c.Rng
+	// predicates / typeof over every primitive
+	prims := []string{"u", "n"}
+	for _, t := range base {
+		if strings.HasPrefix(t, "f32:") {
+			prims = append(prims, "G("+t+")", "G(N("+t+"))", "G(P("+t+"))")
+		} else {
+			prims = append(prims, t, "G(N("+t+"))")
+		}
+	}
+	for _, p := range prims {
+		c.Add("js preds "+p, "js:preds")
+		c.Add("js typeof "+p, "js:typeof")
+	}
+	for _, o := range []string{"A()", "O()", "A(i64:1,)", "G(L(I,0))", "G(M(I,0))", "G(S(0,41,int:1))", "G(P(S(0,41,int:1)))"} {
+		c.Add("js typeof "+o, "js:typeof")
+	}
+	for i := 0; i < c.N(2000, 100000); i++ {
+		p := jsLeaf(r, base, bd)
+		c.Add("js preds "+p, "js:preds")
+		c.Add("js typeof "+p, "js:typeof")
+	}
+	// export: fixed shapes
+	for _, j := range []string{"A()", "O()", "A(i64:1,i64:2,i64:3,)", "A(i64:1,f64:4004000000000000,)", "A(i64:1,H,i64:3,)", "A(i64:1,u,i64:3,)", "A(n,n,)",
+		"A(s:61,s:62,)", "A(A(i64:1,),A(i64:2,),)", "A(A(i64:1,),A(s:61,),)", "A(A(A(i64:1,),),A(A(s:61,),),)", "A(O(61,i64:1,),O(62,s:78,),)",
+		"O(61,i64:1,62,u,63,n,64,A(i64:1,s:78,),)", "A(i32:1,i32:2,)", "A(u32:1,u32:2,)", "A(i64:1,i32:2,)", "A(b:1,b:0,)", "A(A(),A(),)", "A(A(),A(i64:1,),)",
+		"A(A(i64:1,),A(),)", "A(A(n,),A(i64:1,),)", "A(H,)", "A(H,H,)", "A(u,)", "A(G(L(int,0,int:1)),G(L(int,0,int:2)),)", "A(G(L(int,0,int:1)),A(i64:2,),)",
+		"A(G(L(int,0,int:1)),G(L(i64,0,i64:2)),)", "A(G(L(L(int),0)),G(L(L(s),0)),)", "A(G(M(int,0)),G(M(s,0)),)", "A(G(M(L(int),0)),G(M(L(s),0)),)",
+		"A(G(S(0,41,int:1)),G(S(1,58,f64:3ff8000000000000)),)", "A(G(P(S(0,41,int:1))),G(P(S(0,41,int:2))),)", "A(G(S(0,41,int:1)),G(S(0,41,int:2)),)",
+		"A(G(N(int:1)),G(N(int:2)),)", "A(G(N(int:1)),int:2,)", "A(G(N(f32:3ff8000000000000)),)", "A(A(A(A(i64:1,),),),A(A(A(f64:3ff8000000000000,),),),)",
+		"O(61,A(A(A(i64:1,),),A(A(s:61,),),),)", "A(O(),A(),)", "A(A(H,),A(i64:1,),)"} {
+		c.Add("js export "+j, "js:export", "js:fixed")
+		c.Add("js exportT "+j, "js:exportT", "js:fixed")
+	}
+	palettes := [][]string{{"i"}, {"i", "f"}, {"i", "s"}, {"s"}, {"i", "n"}, {"o"}, {"o", "i"}, {"g", "i"}, {"g"}, {"g", "m"}, {"b", "s"}, {"f"}}
+	for i := 0; i < c.N(6000, 400000); i++ {
+		j := nestedHomogeneous(r, 1+r.Intn(4), palettes[r.Intn(len(palettes))])
+		op := []string{"export", "exportT"}[r.Intn(2)]
+		c.Add("js "+op+" "+j, "js:"+op, "js:nested")
+	}
+	leaf := func() string { return jsLeaf(r, base, bd) }
+	for i := 0; i < c.N(12000, 800000); i++ {
+		j := jsTree(r, 1+r.Intn(4), base, bd, leaf)
+		op := []string{"export", "exportT"}[r.Intn(2)]
+		c.Add("js "+op+" "+j, "js:"+op, "js:tree")
+	}
+	// Go containers through Set/Get
+	for i := 0; i < c.N(6000, 300000); i++ {
+		g := goContainer(r, 1+r.Intn(3))
+		op := []string{"export", "export", "toBoolean", "view"}[r.Intn(4)]
+		c.Add("go "+op+" "+g, "go:"+op, "shape:container")
+	}
+}
+
 // ---------------------------------------------------------------- generators
 
 type intKind struct {
@@ -537,4 +774,5 @@ func genC15(c *h.Ctx) {
 		s := wrapScalar(r, randScalar(r, base, bd))
 		addGo(c, goOps[r.Intn(len(goOps))], s, "shape:random")
 	}
+	genJS(c, base, bd)
 }
